@@ -68,6 +68,14 @@ SHORT = {
  "C16_3": "`unsafe impl<T: Send> Sync for IntoIter<T>` (was `T: Sync`)",
  "C17_5": "`extend` trusts an exact size hint: one reserve, then unchecked writes",
  "C19_4": "`Serialize` announces `capacity()` as the sequence length",
+ "C09_4": "`next_capacity`: `checked_shl(1)` instead of `checked_mul(2)` (never overflows: `reserve` loops forever)",
+ "C13_4": "an extra zero-sized field `_elem: [T; 0]` (the handle inherits T's alignment)",
+ "C14_4": "`from_raw_parts` measures the header distance with `align_of::<Header>()`",
+ "C15_4": "`Hash::hash` writes nothing for a never-allocated vector",
+ "C16_4": "`unsafe impl<T: Sync> Send for Drain<'_, T>` (and Sync)",
+ "C18_4": "`grow` checks for a null result only in the `realloc` branch (first block unchecked)",
+ "C19_5": "in-place visitor truncates to `i + 1` when the input ends early (one stale element survives)",
+ "C19_6": "fresh visitor: fill-then-`set_len` fast path leaks the elements read before an element error",
  "C02_5": "Splice: `remaining_pos_` field removed, tail start taken from `drain_end_`",
  "C02_6": "new `IntoIter::nth` override whose overshoot path forgets the remaining elements",
  "C03_3": "Splice guard keeps the cached tail POINTER across `grow` (read of the released block)",
